@@ -1,6 +1,8 @@
 //! Uniform, dynamically dispatched view of a generated model (implemented by generated glue).
 pub trait DynModel {
     fn new_el(&mut self, ty: usize) -> u32;
+    /// element of a member type, created inside the given model element (`new_<type>(parent)`)
+    fn new_member(&mut self, ty: usize, parent: u32) -> u32;
     fn new_enum(&mut self, ty: usize, ctor: usize, args: &[u32]) -> u32;
     fn insert(&mut self, rel: usize, args: &[u32]);
     fn define(&mut self, rel: usize, args: &[u32]) -> u32;
